@@ -53,4 +53,61 @@ def budget_write_set(repo):
     return dict(name='budget_write_set', sites=sites, findings=findings,
                 statement='the budget fields remaining_iters / max_instr are only mentioned in Vm::{new, with_max_iter, run, _run}')
 
-SCANS = {'budget_write_set': budget_write_set}
+def error_site_address(repo):
+    """C15: inside the dispatch loop of Vm::_run every error is built by payload_to_error(err, ADDRESS, stack).  Once the
+    loop has saved the address of the instruction being executed (`let src_ptr = *instr_ptr;`) and advanced the
+    instruction pointer, ADDRESS must be `src_ptr`; `*instr_ptr` still designates the instruction only before that
+    point (the budget check) and after the loop (end of input)."""
+    path = os.path.join(repo, 'cao-lang', 'src', 'vm.rs')
+    src = open(path).read()
+    item = rscan.locate(src, dict(kind='fn', name='_run', impl=r"impl < Aux > Vm < '_ , Aux >"))
+    toks = [t for t in rscan.tokenize(src) if item.body_open <= t.a < item.body_close and t.kind != 'comment']
+    # the statement that saves the address, and the end of the while loop that contains it
+    save = None
+    for i, t in enumerate(toks):
+        if t.text == 'let' and [x.text for x in toks[i + 1:i + 6]] == ['src_ptr', '=', '*', 'instr_ptr', ';']:
+            save = i
+    if save is None:
+        raise rscan.ScanError('lost anchor: `let src_ptr = *instr_ptr;` not found in Vm::_run')
+    loop_end = None
+    for i, t in enumerate(toks):
+        if t.text == 'while' and t.a < toks[save].a:
+            j = i
+            while toks[j].text != '{':
+                j += 1
+            c = rscan.match_close(toks, j)
+            if toks[c].a > toks[save].a:
+                loop_end = toks[c].a
+    if loop_end is None:
+        raise rscan.ScanError('lost anchor: dispatch loop of Vm::_run not found')
+    findings, sites = [], 0
+    for i, t in enumerate(toks):
+        if t.kind == 'id' and t.text == 'payload_to_error' and toks[i + 1].text == '(' and toks[i - 1].text != 'let':
+            sites += 1
+            close = rscan.match_close(toks, i + 1)
+            # split the arguments at top-level commas
+            args, cur, k = [], [], i + 2
+            while k < close:
+                if toks[k].kind == 'op' and toks[k].text in rscan.OPEN:
+                    e = rscan.match_close(toks, k)
+                    cur += [x.text for x in toks[k:e + 1]]
+                    k = e + 1
+                    continue
+                if toks[k].text == ',':
+                    args.append(cur); cur = []
+                else:
+                    cur.append(toks[k].text)
+                k += 1
+            if cur:
+                args.append(cur)
+            addr = ' '.join(args[1]) if len(args) >= 2 else '?'
+            in_loop_after_save = toks[save].a < t.a < loop_end
+            ok = (addr == 'src_ptr') if in_loop_after_save else (addr in ('* instr_ptr', 'src_ptr'))
+            if not ok:
+                line = src.count('\n', 0, t.a) + 1
+                findings.append(dict(file='cao-lang/src/vm.rs', line=line, fn='_run', text='payload_to_error(.., %s, ..)' % addr,
+                                     expected='src_ptr (the address of the instruction being executed)'))
+    return dict(name='error_site_address', sites=sites, findings=findings,
+                statement='every error raised inside the dispatch loop of Vm::_run is built from the address of the instruction being executed (src_ptr)')
+
+SCANS = {'budget_write_set': budget_write_set, 'error_site_address': error_site_address}
